@@ -5,6 +5,7 @@ package sasl
 import (
 	"errors"
 	"fmt"
+	"strings"
 	"testing/synctest"
 
 	"github.com/whawty/auth/zzverif/simnet"
@@ -78,6 +79,8 @@ func propC05(r *Run) {
 			r.Logf("conn%d plan: %s; callback ok=%v msg=%dB err=%v", i, p.desc, p.cbOK, len(p.cbMsg), p.cbErr != nil)
 		}
 
+		var pamCases []string
+		var pamWant []bool
 		check := func(i int, final bool) {
 			p := plans[i]
 			if !p.dialled {
@@ -148,6 +151,10 @@ func propC05(r *Run) {
 				r.Fail("reply/client-verdict", "conn%d: client decodes verdict %v, callback's verdict %v", i, resp.Result, wantPos)
 			}
 			r.Count("replies-checked")
+			if final {
+				pamCases = append(pamCases, "R "+hexs(out))
+				pamWant = append(pamWant, wantPos)
+			}
 		}
 
 		steps := 0
@@ -256,6 +263,23 @@ func propC05(r *Run) {
 		synctest.Wait()
 		for i := range plans {
 			check(i, true)
+		}
+		// the PAM clause: every reply the server emitted, fed to the compiled PAM module
+		if r.Choose("pam-clause", 3) == 0 && len(pamCases) > 0 {
+			ans, err := pamBatch(pamCases)
+			if err != nil {
+				r.Fail("harness/pamsim", "%v", err)
+			}
+			if ans == nil {
+				r.Count("pam-clause-skipped")
+			}
+			for i, a := range ans {
+				ok := strings.HasPrefix(a, "0 ")
+				if ok != pamWant[i] {
+					r.Fail("reply/pam-verdict", "the PAM module returns %s for server reply %s, the callback's verdict was %v", strings.Fields(a)[0], pamCases[i][2:], pamWant[i])
+				}
+				r.Count("replies-decoded-by-pam-module")
+			}
 		}
 		r.Steps += steps
 		var descs []string
